@@ -13,11 +13,12 @@
   Arcs: `is_straight_line`, `Arc::from_svg_arc` and `arc_to_quadratic_beziers_with_t` are the
   model of C13 (`Model/Geom/SvgArc.lean`, imported, run at `Float32`); `Angle::degrees(x)` is
   `x * (PI / 180)` (`f32::to_radians`).  The quadratic calls of an arc are predicted with all
-  their values.
+  their values.  Since C17b the instance is `Parser.concreteNum` (`Model/ParserConcrete.lean`), the
+  very definition `Props/C17b.lean` proves never to answer `none` (no advice from lyon anywhere).
 -/
 import LyonVerif.Drive.Common
 import LyonVerif.Model.Parser
-import LyonVerif.Model.Geom.SvgArc
+import LyonVerif.Model.ParserConcrete
 
 namespace Lyon.Drive.C17
 open Lyon Lyon.Drive Lyon.Parser Lyon.Path
@@ -70,25 +71,11 @@ def f32OfLexeme (l : List Char) : Float32 :=
 
 def consumedOf (total rem : Nat) : Nat := if rem == 0 then total else total - rem + 1
 
-/-- `f32::to_radians`: `self * (consts::PI / 180.0)` -/
-def toRadians (x : Float32) : Float32 := x * ((Transc.pi : Float32) / 180)
-
-def svgArcOf (a : ArcArgs Float32) : SvgArc Float32 :=
-  { from_ := ⟨a.from_.1, a.from_.2⟩, to := ⟨a.to.1, a.to.2⟩, radii := ⟨a.rx, a.ry⟩,
-    xrot := toRadians a.rot, large := a.large, sweep := a.sweep }
-
-def numF32 : Num Float32 where
-  zero := 0
-  one := 1
-  add := (· + ·)
-  sub := (· - ·)
-  mul := (· * ·)
-  ofLexeme := f32OfLexeme
-  arcStraight := fun a => ArcConv.isStraightLine (svgArcOf a)
-  arc := fun _ a =>
-    if ArcConv.bezPanics (ArcConv.fromSvgArc (svgArcOf a)) then none
-    else some ((ArcConv.quadsWithT (ArcConv.fromSvgArc (svgArcOf a))).map
-      (fun q => ((q.1.c.x, q.1.c.y), (q.1.b.x, q.1.b.y), q.2.2)))
+/-- the numeric instance the tie runs: `Parser.concreteNum` (`Model/ParserConcrete.lean` — the
+instance `Props/C17b.lean` proves total: `is_straight_line`, `to_arc`, the quadratic pieces with
+their `t` ranges and the `n_steps` NaN test all come from the arc model of C13, nothing is fed in
+from lyon) at `Float32`, with the exact decimal → binary32 conversion above -/
+def numF32 : Num Float32 := concreteNum f32OfLexeme
 
 /-! ### printing -/
 
